@@ -111,3 +111,20 @@ def gen_long_program(r, lps=None, target=None):
                 outs.append((r.choice([0, 2, 3, 3]), r.below(lps + 1), dt, oty, r.choice(SIZES)))
             p["rows"].append((ty, cls, draws, mem, outs))
     return p
+
+
+def gen_time0_program(r, lps=None):
+    """every event at virtual time 0 (zero-delay trees, the type decreases along a chain so the model stays strictly causal), stopped by
+    RootsimStop after a varying number of events: the rounds of the shutdown compute a GVT of exactly 0.0 while workers leave the main loop"""
+    lps = lps or r.choice([4, 5, 6, 8])
+    ntypes = r.range(8, 11)
+    p = dict(lps=lps, ncls=1, target=1 << 30, seed=r.u64(), grid=0, inits=[], rows=[], targets=[], plmode=0)
+    for lp in range(lps):
+        p["inits"].append((lp, 0, ntypes - 1, r.choice([0, 8])))
+    for ty in range(ntypes):
+        outs = []
+        if ty > 0:
+            outs = [(3, r.range(1, lps - 1), 0, ty - 1, r.choice([0, 0, 8])), (r.choice([0, 3]), r.range(1, lps - 1), 0, r.below(ty), 0)]
+        p["rows"].append((ty, 0, [], [], outs))
+    p["stopat"] = (r.below(lps), r.range(1, 300))
+    return p
